@@ -394,6 +394,34 @@ for _op in ("any", "all", "none", "count", "mask"):
     row(_op, "M", "S", prop="C03")(_maskred(_op))
 
 
+def _pick(arg, idx_expr, n):
+    """lane selected by a run-time index expression (a chain of conditionals over the constant lane accessors)"""
+    e = arg.lane(n - 1)
+    for k in range(n - 2, -1, -1):
+        e = "((%s) == %d ? %s : %s)" % (idx_expr, k, arg.lane(k), e)
+    return e
+
+
+@row("get", "BS", "S", prop="C04")
+def _get(ctx):
+    """get(i) addresses the same lane numbering as loads, stores and insert<i>"""
+    x, i = ctx.args
+    ctx.requires.append("(u64)%s < %d" % (i.scalar, ctx.n))
+    R = ctx.ret = Arg("S", ctx.tid, None, scalar="__CPROVER_return_value")
+    ctx.ensures.append("(%s == %s)" % (R.lane(0), _pick(x, "(u64)%s" % i.scalar, ctx.n)))
+
+
+@row("get", "MS", "S", prop="C03")
+def _get_bool(ctx):
+    m, i = ctx.args
+    ctx.requires.append("(u64)%s < %d" % (i.scalar, ctx.n))
+    ctx.requires += conj(m.wf())
+    e = "0"
+    for k in range(ctx.n - 1, -1, -1):
+        e = "(((u64)%s) == %d ? (%s ? 1 : 0) : %s)" % (i.scalar, k, m.truth(k), e)
+    ctx.ensures.append("((__CPROVER_return_value != 0) == (%s != 0))" % e)
+
+
 @row("batch_bool_cast", ("M", "MM"), "M", prop="C03")
 def _bool_cast(ctx):
     """Boolean batches keep their lanes through batch_bool_cast (equal-width element types)"""
